@@ -359,3 +359,148 @@ Proof.
   - repeat split; vm_compute; reflexivity.
 Qed.
 Print Assumptions one_show_per_key_ex.
+
+(* ==================================================================================================== *)
+(* Second pass: token substitution + the per-token cache, replace_or_advance_show, callbacks (Replay.v)   *)
+From C17 Require Import Replay ReplayLemmas.
+
+(* Token substitutions: whatever was played before (any token dicts, any number of times, in any order), a
+   play gets the steps of ITS OWN token dict put into the show's source steps. *)
+Theorem token_cache_transparent :
+  forall (src : list sstep) (hist : list toks) (tk : toks),
+    snd (get_steps src (run_cache src hist) tk) = subst_steps tk src.
+Proof. exact token_cache_transparent_l. Qed.
+Print Assumptions token_cache_transparent.
+
+(* two colours swapped between two plays: different steps, both right, the cache holds both *)
+Definition ex_src : list sstep := [mkSS 250000 [(Tok 0, Tok 2); (Tok 1, Tok 3); (Lit 100, Tok 4)]; mkSS 125000 [(Lit 3, Tok 2)]].
+Definition ex_tk1 : toks := [(0, 0); (1, 1); (2, 1); (3, 2); (4, 1)].
+Definition ex_tk2 : toks := [(0, 0); (1, 1); (2, 2); (3, 1); (4, 1)].
+Example token_cache_ex :
+  snd (get_steps ex_src (run_cache ex_src [ex_tk1; ex_tk2; ex_tk1]) ex_tk2) =
+    [mkStep 250000 [(0, 2); (1, 1); (100, 1)]; mkStep 125000 [(3, 2)]] /\
+  snd (get_steps ex_src (run_cache ex_src [ex_tk2]) ex_tk1) =
+    [mkStep 250000 [(0, 1); (1, 2); (100, 1)]; mkStep 125000 [(3, 1)]] /\
+  length (run_cache ex_src [ex_tk1; ex_tk2; ex_tk1]) = 2%nat.
+Proof. repeat split; vm_compute; reflexivity. Qed.
+Print Assumptions token_cache_ex.
+
+(* a cache keyed by the sorted token VALUES only is wrong: swapped colours get the other play's steps *)
+Theorem cache_by_values_refuted :
+  exists src tk1 tk2,
+    let c1 := fst (get_steps_by_values src [] tk1) in
+    snd (get_steps_by_values src c1 tk2) <> subst_steps tk2 src.
+Proof. exact cache_by_values_refuted_l. Qed.
+Print Assumptions cache_by_values_refuted.
+
+(* replace_or_advance_show: after a play request the key is bound to the new show, or to the previous one
+   when that one has NOT stopped and the decision was keep / advance *)
+Theorem play_binds_live :
+  forall (e : env) (now key slot : Z) (c : pcfg) (x : xstate),
+    blookup key (x_bind (x_play e now key slot c x)) = Some slot \/
+    exists o d, live_old x key = Some (o, d) /\ blookup key (x_bind (x_play e now key slot c x)) = Some o /\
+                (roa (Some d) c = DKeep \/ roa (Some d) c = DAdvance).
+Proof. exact play_binds_live_l. Qed.
+Print Assumptions play_binds_live.
+
+Theorem live_old_is_live :
+  forall (x : xstate) (key o : Z) d,
+    live_old x key = Some (o, d) ->
+    blookup key (x_bind x) = Some o /\ exists r, get_show (x_w x) o = Some r /\ r_stopped r = false.
+Proof. exact live_old_live. Qed.
+Print Assumptions live_old_is_live.
+
+(* no previous instance, or one that has stopped (explicitly or by completing): the request is never
+   dropped, it plays a new show ... *)
+Theorem dead_instance_replaced :
+  forall (e : env) (now key slot : Z) (c : pcfg) (x : xstate),
+    live_old x key = None -> x_play e now key slot c x = x_fresh e now key slot c None x.
+Proof. exact dead_instance_replaced_l. Qed.
+Print Assumptions dead_instance_replaced.
+
+(* ... which is the show of the requested configuration from the requested start step, with the steps of the
+   request's own token dict *)
+Theorem fresh_show_spec :
+  forall (e : env) (now key slot : Z) (c : pcfg) (scb : option Z) (x : xstate),
+    caches_ok e x -> (Z.to_nat slot < length (w_shows (x_w x)))%nat ->
+    let m := fst (pick e (x_cnt x) c) in
+    get_show (x_w (x_fresh e now key slot c scb x)) slot =
+    Some (fst (play_rs (mkCfg (subst_steps (pc_toks c) (nth (Z.to_nat m) (fst e) []))
+                              (pc_speed4 c) (pc_loops c) (if pc_start c =? 0 then 1 else pc_start c)
+                              (pc_sync c) (pc_manual c) (pc_running c)) now)).
+Proof. exact fresh_show_spec_l. Qed.
+Print Assumptions fresh_show_spec.
+
+(* a one-step show with loops = 0 played on key 0, completed by itself, then the identical request again:
+   a new running show (slot 1) is bound; while it runs the identical request keeps it (slot 2 stays free) *)
+Definition ex_env : env := ([[mkSS 250000 [(Lit 0, Lit 1)]]], [(0, [0; 0])]).
+Definition ex_pc : pcfg := mkPC 0 0 [] 0 4 0 1 0 false true false false.
+Definition ex_x0 : xstate :=
+  mkX (mkW (repeat None 3) (map (fun f => mkLight f [] []) [0; 0; 0; 0]) []) [] (repeat None 3) [[]] [0] [].
+Definition ex_x1 : xstate := x_advance_to 50 1000000 (x_play ex_env 31250 0 0 ex_pc ex_x0).
+Definition ex_x2 : xstate := x_play ex_env 1000000 0 1 ex_pc ex_x1.
+Definition ex_x3 : xstate := x_play ex_env 1031250 0 2 ex_pc ex_x2.
+Example replay_after_completion_ex :
+  caches_ok ex_env ex_x0 /\
+  bind_snap 1 ex_x1 = [[0; 1]; [1; -1; -1]] /\ live_old ex_x1 0 = None /\
+  bind_snap 1 ex_x2 = [[1; 0]; [1; 0; -1]] /\
+  bind_snap 1 ex_x3 = [[1; 0]; [1; 0; -1]].
+Proof.
+  split.
+  - intros m tk s. destruct m as [|[|m]]; cbn; discriminate.
+  - repeat split; vm_compute; reflexivity.
+Qed.
+Print Assumptions replay_after_completion_ex.
+
+(* Callbacks.  A show that replaces another one in sync holds that show's stop as its start callback: when
+   its start timer expires the replaced show is stopped at that very instant ... *)
+Theorem sync_start_stops_replaced :
+  forall (f : nat) (now sid : Z) (x : xstate) (r : rs) (d old : Z) (ro : rs),
+    get_show (x_w x) sid = Some r -> r_timer r = Some (d, true) ->
+    startcb_of x sid = Some old -> Z.to_nat old <> Z.to_nat sid -> get_show (x_w x) old = Some ro ->
+    is_stopped (x_w (x_op (S f) now sid Fire x)) old = true.
+Proof. exact sync_start_stops_replaced_l. Qed.
+Print Assumptions sync_start_stops_replaced.
+
+(* ... and so it is when the new show is stopped before it ever started *)
+Theorem stop_before_start_stops_replaced :
+  forall (f : nat) (now sid : Z) (x : xstate) (r : rs) (old : Z) (ro : rs),
+    get_show (x_w x) sid = Some r -> r_stopped r = false ->
+    startcb_of x sid = Some old -> Z.to_nat old <> Z.to_nat sid -> get_show (x_w x) old = Some ro ->
+    is_stopped (x_w (x_op (S f) now sid Stop x)) old = true.
+Proof. exact stop_before_start_stops_replaced_l. Qed.
+Print Assumptions stop_before_start_stops_replaced.
+
+(* the stop callback (queue.clear of block_queue) runs when the show stops ... *)
+Theorem stop_callback_at_stop :
+  forall (fuel : nat) (now sid : Z) (o : op) (x : xstate) (r : rs),
+    get_show (x_w x) sid = Some r -> r_stopped r = false -> has_stopcb x sid = true -> startcb_of x sid = None ->
+    is_stopped (world_op now sid o (x_w x)) sid = true ->
+    cb_count sid (x_op fuel now sid o x) = S (cb_count sid x).
+Proof. exact stop_callback_at_stop_l. Qed.
+Print Assumptions stop_callback_at_stop.
+
+(* ... and never again: over every sequence of requests and timer expiries (for any shows, with all the
+   callback chains they cause) after the show has stopped, it stays stopped and gets no further callback *)
+Theorem stop_callback_not_again :
+  forall (fuel : nat) (reqs : list (Z * Z * op)) (x : xstate) (s : Z),
+    is_stopped (x_w x) s = true ->
+    cb_count s (fold_left (fun y q => x_op fuel (fst (fst q)) (snd (fst q)) (snd q) y) reqs x) = cb_count s x /\
+    is_stopped (x_w (fold_left (fun y q => x_op fuel (fst (fst q)) (snd (fst q)) (snd q) y) reqs x)) s = true.
+Proof. exact stop_callback_not_again_l. Qed.
+Print Assumptions stop_callback_not_again.
+
+(* an endless show (slot 0) on key 0 replaced in sync (500 ms) by a pool show with block_queue (slot 1): the
+   old show runs on until the boundary, is stopped there; the new one is stopped later: one callback row *)
+Definition ex_pc_long : pcfg := mkPC 0 0 [] 0 4 (-1) 1 0 false true false false.
+Definition ex_pc_sync : pcfg := mkPC 100 0 [] 0 4 (-1) 1 500000 false true false true.
+Definition ex_y1 : xstate := x_play ex_env 1031250 0 1 ex_pc_sync (x_play ex_env 31250 0 0 ex_pc_long ex_x0).
+Definition ex_y2 : xstate := x_advance_to 50 1500000 ex_y1.
+Definition ex_y3 : xstate := x_act ex_env 1600000 0 XStop ex_y2.
+Example sync_replacement_ex :
+  startcb_of ex_y1 1 = Some 0 /\ bind_snap 1 ex_y1 = [[1; 0]; [0; 0; -1]] /\
+  bind_snap 1 ex_y2 = [[1; 0]; [1; 0; -1]] /\ startcb_of ex_y2 1 = None /\ x_cb ex_y2 = [] /\
+  bind_snap 1 ex_y3 = [[-1; 0]; [1; 1; -1]] /\ x_cb ex_y3 = [[1; 1600000; 14; 0; 0; 0]] /\
+  cb_count 1 (x_op 5 1700000 1 (Advance 1) ex_y3) = 1%nat.
+Proof. repeat split; vm_compute; reflexivity. Qed.
+Print Assumptions sync_replacement_ex.
